@@ -58,6 +58,9 @@ def specs(tier):
                                     "layout": ("grouped", "interleaved")[(idx // 8) % 2],
                                     "foreign": foreign,
                                 })
+                                if dbc and base and foreign is None and kind not in ("new",):
+                                    # the same program with the leaf class re-created from its own namespace
+                                    out.append(dict(out[-1], recreate=True))
     return out
 
 
